@@ -142,6 +142,35 @@ func runC01(c *Ctx) {
 				}
 			}
 			c.Ob("C01-R3", shortFn(fn)+": HF4/HF5 hooks precede Engine.Finalize", c.FnPos(fn), okOrder, fmt.Sprintf("%d hooks, %d Finalize", len(hooks), len(fins)))
+			// and they precede every transaction: builder and importer must edit the fork-block state at the same point of
+			// the pipeline, or a transaction touching a listed account makes the node reject its own block. No call that can
+			// reach ApplyTransaction may be followed by a hook.
+			atFn := c.Fn("core:ApplyTransaction")
+			okTx, ntx := true, 0
+			for _, e := range g.out[fn] {
+				if e.site == nil || e.callee == nil {
+					continue
+				}
+				if e.callee != atFn {
+					if _, ok := g.Reach([]*ssa.Function{e.callee}, ReachOpts{SkipGo: true})[atFn]; !ok {
+						continue
+					}
+				}
+				if strings.HasPrefix(calleeName(e.site.Common()), "misc.") {
+					continue
+				}
+				ntx++
+				for _, h := range hooks {
+					if e.site.Block() == h.Block() {
+						if instrDominates(e.site, h) {
+							okTx = false
+						}
+					} else if reaches(e.site.Block(), h.Block(), nil) {
+						okTx = false
+					}
+				}
+			}
+			c.Ob("C01-R3", shortFn(fn)+": HF4/HF5 hooks run before any transaction is applied", c.FnPos(fn), okTx && ntx >= 1, fmt.Sprintf("%d call sites that can apply transactions", ntx))
 		}
 		// ApplyMessage / NewStateTransition reachable from the three roots only through ApplyTransaction
 		at := c.Fn("core:ApplyTransaction")
@@ -336,6 +365,9 @@ func runC01(c *Ctx) {
 	// that still hash to the requested root (C09-R4), shared here; "a block assembled by the node's own building path is
 	// accepted by its own import path": the miner keeps the verifier's uncle bookkeeping and ancestor window (C13-R2)
 	c.Borrow("C09", runC09, map[string]string{"C09-R4": "C01-R10"})
+	// "only self-consistent blocks are accepted": a known block is skipped, never re-executed from an unvalidated body
+	// (ValidateBody returns ErrKnownBlock before it looks at the body) – the known-block rule of C04, shared here
+	c.Borrow("C04", runC04, map[string]string{"C04-R6": "C01-R12"})
 	c.Borrow("C13", runC13, map[string]string{"C13-R2": "C01-R11"})
 
 	c.Rule("C01-R9", "caches consulted during execution cannot make the result depend on what was imported before", func() {
